@@ -49,7 +49,9 @@ func MergeRects(rects []Rect) Polygon {
 	lps = append(lps, P{prev.TL.X, prev.BR.Y})
 	rps = append(rps, prev.BR)
 
-	points := make([]P, np*2)
+	// exactly as many vertices as were collected: unused zero-valued slots would become spurious vertices at (0,0)
+	// and the polygon would lose the side that closes it
+	points := make([]P, len(lps)+len(rps))
 	i := 0
 	for i < len(lps) {
 		points[i] = lps[i]
